@@ -7,7 +7,7 @@
    (reported histories). *)
 From Coq Require Import Reals Lra List Arith Lia Bool.
 From TLV Require Import Base.Shape Base.PyList Base.Tensor Base.Ops Base.RSum Model.Descent Model.DescentLoop
-  Proofs.DescentProofs Proofs.DescentProofsOrth Proofs.DescentProofsSweeps Proofs.DescentProofsSweeps2.
+  Proofs.DescentProofs Proofs.DescentProofsOrth Proofs.DescentProofsTucker Proofs.DescentProofsSweeps Proofs.DescentProofsSweeps2.
 Import ListNotations.
 Open Scope R_scope.
 
@@ -220,4 +220,51 @@ Proof.
            (p2_iter_ok I J R' K X Th Mof proj cpstep)).
   intros s Hs. apply (ls_step_descent _ _ _ _ (p2_iter_ok I J R' K X Th Mof proj cpstep)); [|exact Hs].
   intros s' Hs'. apply p2_iter_rel_descent. exact Hs'.
+Qed.
+
+(* HOOI (tucker / partial_tucker): the list of errors partial_tucker returns, under any stopping rule; the factors have orthonormal columns at the visited
+   states (init='svd', or from the second state on for any init: Proofs/DescentProofsR6.v) *)
+Theorem hooi_loop_reported_nonincreasing (X : tensor R) (rs : list nat) (svd : list (list (list R)) -> nat -> list (list R)) (modes : list nat)
+  (stop : nat -> list R -> bool) (Us : list (list (list R))) (n : nat) :
+  run_ok _ (hooi_sweep svd modes)
+    (fun U => hooi_sweep_ok X rs svd modes U /\ orth_all (shape X) rs U /\ orth_all (shape X) rs (hooi_sweep svd modes U)) n Us ->
+  let h := snd (run_loop _ R (hooi_sweep svd modes) (tk_reported X rs) stop n Us) in
+  (forall i j, (i <= j)%nat -> (j < length h)%nat -> nth i h 0 <= nth j h 0) /\ (forall i, (i < length h)%nat -> nth i h 0 <= tk_reported X rs Us).
+Proof.
+  apply (loop_history_nonincreasing _ (hooi_sweep svd modes) (tk_reported X rs) stop
+           (fun U => hooi_sweep_ok X rs svd modes U /\ orth_all (shape X) rs U /\ orth_all (shape X) rs (hooi_sweep svd modes U))).
+  intros s (Hs & Ho & Ho'). unfold tk_reported.
+  rewrite <- !(DescentProofsTucker.tucker_residual X rs) by assumption. fold (normsq X).
+  apply rel_err_monotone; [apply tk_obj_nonneg | apply hooi_sweep_descent; exact Hs].
+Qed.
+
+(* ---------- the stopping tests of the code, read as propositions over R (target of the static tie of the stopping rules) ---------- *)
+Definition stop_prop (k : stop_kind) (tol a b f : R) : Prop :=
+  match k with
+  | AbsDiffLt => Rabs (b - a) < tol
+  | DiffLt => b - a < tol
+  | RelNewLe => Rabs (a - b) / a <= tol
+  | RelOldLeOrSmall => Rabs (a - b) / b <= tol \/ a < tol
+  | RelFirstLt => a < tol * f
+  end.
+Lemma Rleb_true a b : Rleb a b = true <-> a <= b.
+Proof. unfold Rleb. destruct (Rle_dec a b); split; intros; try assumption; try reflexivity; try discriminate; contradiction. Qed.
+Lemma Rltb_true a b : fltb Rops a b = true <-> a < b.
+Proof.
+  unfold fltb. cbn [fleb Rops]. unfold Rleb. destruct (Rle_dec b a); simpl; split; intros H; try discriminate; try reflexivity; lra.
+Qed.
+Lemma fabs_Rabs a : fabs Rops a = Rabs a.
+Proof.
+  unfold fabs. cbn [fleb f0 fopp Rops]. unfold Rleb. destruct (Rle_dec 0 a).
+  - now rewrite Rabs_pos_eq.
+  - rewrite Rabs_left by lra. reflexivity.
+Qed.
+Theorem stop_test_spec k tol a b f : stop_test Rops k tol a b f = true <-> stop_prop k tol a b f.
+Proof.
+  destruct k; unfold stop_test, stop_prop; rewrite ?fabs_Rabs; cbn [fsub fdiv fmul fleb Rops].
+  - apply Rltb_true.
+  - apply Rltb_true.
+  - apply Rleb_true.
+  - rewrite orb_true_iff, Rleb_true, Rltb_true. reflexivity.
+  - apply Rltb_true.
 Qed.
